@@ -9,7 +9,7 @@ use serde::{Deserialize, Serialize};
 
 use crate::engine::data_types::*;
 use crate::mem_store::*;
-use crate::stringpack::StringPackerIterator;
+use crate::stringpack::{PackedBytesIterator, StringPackerIterator};
 
 #[derive(Serialize, Deserialize)]
 pub struct Column {
@@ -856,7 +856,31 @@ fn decode<'a>(codec: &Codec, sections: &[&'a dyn Data<'a>]) -> DecodedData<'a> {
                 }
                 Box::new(output) as BoxedData
             }
-            CodecOp::UnhexpackStrings(_, _) => todo!(),
+            CodecOp::UnhexpackStrings(uppercase, total_bytes) => {
+                // Hex encode every packed byte string into one buffer, as the UnhexpackStrings operator does.
+                let mut stringstore: Vec<u8> = Vec::with_capacity(*total_bytes);
+                let mut ends = Vec::new();
+                for elem in PackedBytesIterator::from_slice(arg0.cast_ref_u8()) {
+                    let string = if *uppercase {
+                        hex::encode_upper(elem)
+                    } else {
+                        hex::encode(elem)
+                    };
+                    stringstore.extend_from_slice(string.as_bytes());
+                    ends.push(stringstore.len());
+                }
+                backing.push(stringstore);
+                let stringstore = unsafe {
+                    std::mem::transmute::<&[u8], &'a [u8]>(backing.last().unwrap().as_slice())
+                };
+                let mut output = Vec::with_capacity(ends.len());
+                let mut start = 0;
+                for end in ends {
+                    output.push(unsafe { str::from_utf8_unchecked(&stringstore[start..end]) });
+                    start = end;
+                }
+                Box::new(output) as BoxedData
+            }
             CodecOp::Unknown => todo!(),
         };
         if let Some(present) = null_map {
